@@ -1011,6 +1011,62 @@ fn c03_handler_situations(rep: &mut Report, args: &Args) {
         *mx.lock().unwrap() = true;
         cv.notify_all();
     }
+    // ---- (b3) a client with a handler directly on a queuing sink that has none, over a sink that refuses everything: the
+    // client's sink (the queue) accepts each call, so the CLIENT's handler hears nothing - what the wrapped sink does
+    // later on the queue's thread is the queue's business
+    {
+        let q = cadence::QueuingMetricSink::from(AlwaysRefuse);
+        let probe = q.clone();
+        let reported = std::sync::Arc::new(AtomicU64::new(0));
+        let rp = reported.clone();
+        let c = StatsdClient::builder("adopt", q).with_error_handler(move |_e| {
+            rp.fetch_add(1, O::SeqCst);
+        }).build();
+        let mut refused = 0u64;
+        for k in 0..20u64 {
+            if k % 2 == 0 {
+                c.gauge_with_tags("quiet", k).send();
+            } else if c.count("plain", k as i64).is_err() {
+                refused += 1;
+            }
+        }
+        let t0 = std::time::Instant::now();
+        while probe.queued() > 0 && t0.elapsed().as_secs() < 10 {
+            std::thread::sleep(std::time::Duration::from_millis(1));
+        }
+        std::thread::sleep(std::time::Duration::from_millis(20));
+        rep.eval();
+        rep.obs("calls_on_a_client_with_a_handler_over_a_handlerless_queue_whose_sink_refuses", 20);
+        let got = reported.load(O::SeqCst);
+        if refused > 0 {
+            rep.inconclusive(format!("handler-less queue scenario: {} of 10 plain calls were refused by an unbounded queue", refused));
+        } else if got != 0 {
+            violation(rep, "handler-exactly-once-on-failure", "handler-on-accepted", format!("20 calls on a client whose sink (an unbounded queuing sink without a handler of its own) accepted every one of them: the client's handler was invoked {} times", got));
+        }
+    }
+    // ---- (b4) a handler that panics once: the panic is the caller's to catch, and the next failing quiet send is
+    // reported like any other
+    {
+        let reported = std::sync::Arc::new(AtomicU64::new(0));
+        let rp = reported.clone();
+        let c = StatsdClient::builder("hp", AlwaysRefuse).with_error_handler(move |_e| {
+            if rp.fetch_add(1, O::SeqCst) == 1 {
+                panic!("scripted-panic: the error handler itself fails once");
+            }
+        }).build();
+        let mut unwound = 0u64;
+        for k in 0..8u64 {
+            if panics::guard(|| c.meter_with_tags("m", k).send()).is_err() {
+                unwound += 1;
+            }
+        }
+        rep.eval();
+        rep.obs("failing_quiet_sends_after_the_handler_itself_panicked_once", 6);
+        let got = reported.load(O::SeqCst);
+        if got != 8 {
+            violation(rep, "handler-exactly-once-on-failure", "handler-count-on-failure", format!("8 failing quiet sends on a client whose handler panicked during the 2nd ({} calls unwound into the caller): the handler was invoked {} times", unwound, got));
+        }
+    }
     // ---- (c) a sink that panics now and then ----
     struct Moody(AtomicU64);
     impl cadence::MetricSink for Moody {
